@@ -810,10 +810,12 @@ func checkLockOrder(c *Ctx, rule string, scope map[*ssa.Function]bool, li *lockI
 	{
 		takes := map[*ssa.Function]map[string]byte{}
 		for fn := range scope {
-			if fn.Parent() != nil || !isExportedFunc(fn) {
+			// every named function of the scope that takes a lock itself — the exported API and, after a
+			// refactoring, a shared "locked" helper an API function calls while it still holds the lock
+			if fn.Parent() != nil {
 				continue
 			}
-			allInstrs(fn, func(in ssa.Instruction) {
+			allInstrsShallow(fn, func(in ssa.Instruction) {
 				if cls, mode, _, op, ok := lockOp(in); ok && op == "lock" {
 					if takes[fn] == nil {
 						takes[fn] = map[string]byte{}
